@@ -52,6 +52,103 @@ def ctor_inits(trees, cls):
     return out
 
 
+def _copy_assign(trees, cls):
+    for t in trees:
+        for n in walk(t):
+            if n.get('kind') == 'CXXMethodDecl' and n.get('name') == 'operator=':
+                q = n.get('type', {}).get('qualType', '')
+                if '&&' in q or 'const ' + cls not in q:
+                    continue
+                body = [c for c in kids(n) if c.get('kind') == 'CompoundStmt']
+                if body:
+                    return body[0]
+    raise Untranslatable('%s: copy assignment operator not found' % cls)
+
+
+def _is_return_this(s):
+    if s.get('kind') != 'ReturnStmt':
+        return False
+    ks = kids(s)
+    if len(ks) != 1:
+        return False
+    e = strip(ks[0])
+    return e.get('kind') == 'UnaryOperator' and e.get('opcode') == '*' and strip(kids(e)[0]).get('kind') == 'CXXThisExpr'
+
+
+def _is_other(e):
+    e = strip(e)
+    return e.get('kind') == 'DeclRefExpr' and (e.get('referencedDecl') or {}).get('kind') == 'ParmVarDecl'
+
+
+def _self_test(cond):
+    """`this != &other` (either order)"""
+    c = strip(cond)
+    if c.get('kind') != 'BinaryOperator' or c.get('opcode') != '!=':
+        return False
+    a, b = [strip(x) for x in kids(c)]
+
+    def addr_other(x):
+        return x.get('kind') == 'UnaryOperator' and x.get('opcode') == '&' and _is_other(kids(x)[0])
+    return (a.get('kind') == 'CXXThisExpr' and addr_other(b)) or (b.get('kind') == 'CXXThisExpr' and addr_other(a))
+
+
+def _memberwise(s):
+    """`member = other.member` for one and the same member"""
+    e = strip(s)
+    if e.get('kind') not in ('BinaryOperator', 'CXXOperatorCallExpr'):
+        return False
+    ks = kids(e)
+    if e.get('kind') == 'CXXOperatorCallExpr':
+        ks = ks[1:]
+    elif e.get('opcode') != '=':
+        return False
+    if len(ks) != 2:
+        return False
+    l, r = strip(ks[0]), strip(ks[1])
+    if l.get('kind') != 'MemberExpr' or strip(kids(l)[0]).get('kind') != 'CXXThisExpr':
+        return False
+    if r.get('kind') not in ('MemberExpr', 'CXXDependentScopeMemberExpr') or not _is_other(kids(r)[0]):
+        return False
+    return member_name(l) is not None and member_name(l) == member_name(r)
+
+
+def copy_assign_self_safe(trees, cls):
+    """does `x = x` leave x's listener nodes alone?  true: the body assigns members from the same members of the source
+    (a standard container assigned from itself keeps its elements) or does everything under `if(this != &other)`;
+    false: it constructs a copy of the source and swaps with it without such a test; anything else is refused"""
+    body = _copy_assign(trees, cls)
+    stmts = [x for x in kids(body) if x.get('kind') != 'NullStmt']
+    if not stmts or not _is_return_this(stmts[-1]):
+        raise Untranslatable('%s::operator=(const&): does not end with return *this' % cls)
+    work = stmts[:-1]
+    if len(work) == 1 and work[0].get('kind') == 'IfStmt' and len(kids(work[0])) == 2 and _self_test(kids(work[0])[0]):
+        return True
+    if work and all(_memberwise(x) for x in work):
+        return True
+    decls = [v for x in work if x.get('kind') == 'DeclStmt' for v in kids(x) if v.get('kind') == 'VarDecl']
+    copies = [v for v in decls if any(_is_other(y) for y in walk(v))]
+    swaps = [x for x in work for y in walk(x) if y.get('kind') in ('CallExpr', 'CXXMemberCallExpr')
+             and ((call_name(y) or '') == 'swap' or any(z.get('name') == 'swap' or z.get('member') == 'swap' for z in walk(kids(y)[0])))]
+    if copies and swaps and len(work) == 2:
+        return False
+    raise Untranslatable('%s::operator=(const&): neither member-wise assignment, nor a self test, nor copy-and-swap' % cls)
+
+
+def queue_assign_forwards(trees, cls):
+    """the queue's copy assignment is `super::operator=(other); return *this;` and nothing else"""
+    body = _copy_assign(trees, cls)
+    stmts = [x for x in kids(body) if x.get('kind') != 'NullStmt']
+    if len(stmts) != 2 or not _is_return_this(stmts[1]):
+        raise Untranslatable('%s::operator=(const&): not a forwarding assignment' % cls)
+    c = strip(stmts[0])
+    ks = kids(c)
+    if c.get('kind') not in ('CallExpr', 'CXXMemberCallExpr', 'CXXOperatorCallExpr') or len(ks) != 2 or not _is_other(ks[1]):
+        raise Untranslatable('%s::operator=(const&): not a forwarding assignment' % cls)
+    callee = strip(ks[0])
+    if (callee.get('member') or callee.get('name') or '') != 'operator=':
+        raise Untranslatable('%s::operator=(const&): forwards to something that is not the base class assignment' % cls)
+
+
 def leaf_ctors(out):
     tu = '#include "eventpp/eventqueue.h"\n#include "eventpp/hetereventqueue.h"\n'
     facts = {}
@@ -67,6 +164,10 @@ def leaf_ctors(out):
             facts['%s_%s_inits_counters' % (pre, kind)] = both
             # an initialised counter starts at 0, or is taken over from the source object
             facts['%s_%s_counters_from_source' % (pre, kind)] = both and any(v == 'source' for v in how.values())
+        queue_assign_forwards(trees, cls)
+    # copy assignment from itself: the dispatcher bases the queues forward to
+    for cls, pre in (('EventDispatcherBase', 'eq'), ('HeterEventDispatcherBase', 'heq')):
+        facts['%s_copy_assign_self_safe' % pre] = copy_assign_self_safe(clang_ast(tu, cls), cls)
     # noexcept of HeterCallbackListBase assignment operators
     trees = clang_ast('#include "eventpp/hetercallbacklist.h"\n', 'HeterCallbackListBase')
     ne = {}
